@@ -143,6 +143,17 @@ theorem smallest_largest_spec (ip : Addr) (cidrs : List Net) (hip : ip.WF) (hc :
     · exact hp.2.2 c h m (by simp)
     · simp at h; subst h; exact Nat.le_refl _
 
+/-- **The order of the candidates does not matter**: permuting (shuffling) the candidate list
+    changes none of the three results (`sort_key` ties are equal objects, so `sorted()` of two
+    permutations is the same list). -/
+theorem order_invariant (ip : Addr) (cidrs cidrs' : List Net) (h : cidrs.Perm cidrs') :
+    allMatching ip cidrs = allMatching ip cidrs' ∧
+    smallestMatching ip cidrs = smallestMatching ip cidrs' ∧
+    largestMatching ip cidrs = largestMatching ip cidrs' := by
+  unfold allMatching smallestMatching largestMatching
+  rw [sortNets_perm_eq cidrs cidrs' h]
+  exact ⟨rfl, rfl, rfl⟩
+
 /-- non-vacuity: the scan loops on a `sort_key`-ordered candidate list (nested chain, a
     non-matching sibling between and after the matches, another family last): the early exit
     fires at `10.0.1.0/24` and skips the IPv6 candidate (`sorted()` itself is well-founded
